@@ -100,7 +100,7 @@ func c09(env *Env, rep *Report) {
 		"scheduling points are the blocking operations and every Write/Close on a connection, dial, spawn, lock/unlock; a single Write is atomic (as in Go's network layer)",
 		"the race runtime keeps a bounded access history per word (executions are a few hundred steps)",
 		fmt.Sprintf("race build: %v", vsched.RaceEnabled))
-	bound := 1
+	bound := 2
 	if env.thorough() {
 		bound = 2
 	}
@@ -120,7 +120,10 @@ func c09(env *Env, rep *Report) {
 		}
 		b := bound
 		if sc.Deviation {
-			b = bound + 1
+			b = 2
+			if env.thorough() {
+				b = 3
+			}
 		}
 		if env.thorough() && (strings.HasPrefix(sc.Name, "D2") || strings.HasPrefix(sc.Name, "D3")) {
 			b = 3
